@@ -375,6 +375,10 @@ def main(argv):
     _env_setup()
     if len(argv) >= 2 and argv[0] == "--replay":
         return replay(argv[1])
+    if len(argv) >= 2 and argv[0] == "--c12-batch":
+        import_setigen()
+        from .props import C12
+        return C12.batch_main(argv[1])
     if len(argv) >= 5 and argv[0] == "--digests":
         return digests_only(argv[1], argv[2], int(argv[3]), [int(x) for x in argv[4].split(",") if x])
     pid = None
